@@ -9,6 +9,7 @@ import (
 
 	"simh/codec"
 	"simh/env"
+	"simh/sim"
 )
 
 func init() {
@@ -52,13 +53,23 @@ func runC20(c *Ctx) {
 		c.S.Count("fault.kdc.outage_then_recovery")
 	}
 	// KDC behaviours per endpoint and protocol
+	blackholed := map[string]bool{}
+	c.S.DialHook = func(network, from, to string) sim.DialVerdict {
+		if network == "tcp" && blackholed[to] {
+			return sim.DialBlackhole
+		}
+		return sim.DialDefault
+	}
 	var kdcs []*env.KDC
 	var kd []string
 	answering := 0
 	for _, addr := range realms["CORP.TEST"] {
-		tb := []string{"reply-close", "reply-open", "partial", "partial-close", "close", "silent", "refuse"}[c.T.Choose(7)]
+		tb := []string{"reply-close", "reply-open", "partial", "partial-close", "close", "silent", "refuse", "blackhole"}[c.T.Choose(8)]
 		ub := []string{"reply-open", "silent", "refuse", "refuse"}[c.T.Choose(4)]
-		if tb != "refuse" {
+		if tb == "blackhole" {
+			// connection attempts get no answer at all (packets dropped on the way)
+			blackholed[addr] = true
+		} else if tb != "refuse" {
 			rep := c.T.Bytes(1+c.T.Choose(2000), 0x71)
 			reply := append(binary.BigEndian.AppendUint32(nil, uint32(len(rep))), rep...)
 			kdcs = append(kdcs, c.W.AddKDC("tcp", addr, tb, reply))
@@ -185,8 +196,11 @@ func runC20(c *Ctx) {
 		c.S.Fail("C20", sig, "%s: no HTTP response (eof=%v timeout=%v)", sample, r.EOF, r.Timeout)
 		return
 	}
-	if took > 15*time.Second {
-		c.S.Fail("C20", "slow-response", "%s: response after %v (bound 15 s)", sample, took)
+	// the proxy's own timeout is 5 s per step; connection attempts that get no answer are
+	// made one after the other
+	bound := 15*time.Second + time.Duration(len(blackholed))*5*time.Second
+	if took > bound {
+		c.S.Fail("C20", "slow-response", "%s: response after %v (bound %v)", sample, took, bound)
 		return
 	}
 	if other.Accepted+otherU.Accepted > 0 {
